@@ -112,3 +112,34 @@ def control_model(source, filename="construct/core.py"):
     """Build a throw-away in-memory Model from a snippet (positive controls)."""
     from ..model import Model
     return Model.from_sources({filename: source})
+
+
+UNUSED_PARAM_FROZEN = {
+    ("BinExpr.__call__", "args"): "context expressions are called as f(ctx) or f(obj, ctx); extra positional arguments are accepted and ignored by design",
+    ("UniExpr.__call__", "args"): "see BinExpr.__call__", ("Path.__call__", "args"): "see BinExpr.__call__", ("FuncPath.__call__", "args"): "see BinExpr.__call__",
+    ("Compiled.compile", "filename"): "a compiled instance is already compiled: compile() returns self",
+}
+
+
+def unused_parameters(ctx, rule, select):
+    """Every parameter of the selected functions is used in the body (a parameter that is accepted and then dropped -- a keyword context not
+    handed on, a pattern not forwarded, a `signed` flag ignored -- changes the result for exactly the calls that pass it).
+    `select(fi)` chooses the functions; stubs (raise / pass / docstring only) are skipped."""
+    import ast as _ast
+    n = 0
+    for fi in ctx.model.all_functions():
+        if not select(fi):
+            continue
+        node = fi.node
+        if all(isinstance(s, (_ast.Raise, _ast.Pass)) or (isinstance(s, _ast.Expr) and isinstance(s.value, _ast.Constant)) for s in node.body):
+            continue
+        a = node.args
+        params = [x.arg for x in a.posonlyargs + a.args + a.kwonlyargs] + ([a.vararg.arg] if a.vararg else []) + ([a.kwarg.arg] if a.kwarg else [])
+        used = {x.id for x in _ast.walk(node) if isinstance(x, _ast.Name)}
+        for p in params:
+            if p in ("self", "cls"):
+                continue
+            n += 1
+            fro = UNUSED_PARAM_FROZEN.get((fi.qual, p))
+            ctx.ob(rule, fi, p in used or bool(fro), "%s uses its parameter %s" % (fi.qual, p), key="param %s used" % p, detail=fro)
+    return n
